@@ -694,7 +694,24 @@ func init() {
 }
 
 func allowedWriteGuard(p *Program, f Fact) bool {
+	return allowedWriteGuardD(p, f, 0)
+}
+
+func allowedWriteGuardD(p *Program, f Fact, depth int) bool {
 	if _, _, ok := errNilTest(f.Cond); ok {
+		return true
+	}
+	// a flag that merges constants and other allowed tests (a boolean result that travels through a
+	// variable): the tests that decided it are facts of their own and judged separately
+	if ph, ok := f.Cond.(*ssa.Phi); ok && depth < 4 {
+		for _, e := range ph.Edges {
+			if _, isConst := constBool(e); isConst {
+				continue
+			}
+			if !allowedWriteGuardD(p, p.mkFact(e, true), depth+1) {
+				return false
+			}
+		}
 		return true
 	}
 	if _, _, ok := lenCmp(f.Cond); ok {
